@@ -6,6 +6,8 @@
 // (which TLC has shown to be the described object list, specs/Encodings.tla).  The file is read with the
 // real osmium::io::Reader - once from the file system (file descriptor path) and once from a memory
 // buffer - and every object is compared field by field with the expected list; step k = object k,
+// a way is compared with the location of every way node (NodeRef::location(): [lon, lat], null = undefined; PBF ways
+// may carry them in Way.lat / Way.lon);
 // step -2 = header (bounding boxes / multiple-object-versions flag when the case states them).  o5m cases may ask the
 // Reader for a subset of the object types ("mask"); the expected list then is the spec's selection.
 #include "common/vh.hpp"
@@ -49,10 +51,17 @@ static json dump_object(const osmium::OSMObject& o) {
         }
     } else if (o.type() == osmium::item_type::way) {
         json refs = json::array();
+        json locs = json::array();           // location of every way node: [lon, lat] or null (undefined)
         for (const auto& nr : static_cast<const osmium::Way&>(o).nodes()) {
             refs.push_back(nr.ref());
+            if (nr.location().is_undefined()) {
+                locs.push_back(nullptr);
+            } else {
+                locs.push_back(json::array({nr.location().x(), nr.location().y()}));
+            }
         }
         j["refs"] = refs;
+        j["locs"] = locs;
     } else if (o.type() == osmium::item_type::relation) {
         json mems = json::array();
         for (const auto& m : static_cast<const osmium::Relation&>(o).members()) {
